@@ -470,16 +470,10 @@ impl<T: Clone + Into<Obj> + Display + Debug + 'static + MaybeSync + MaybeSend> S
         Box::new(self.clone())
     }
     fn len(&self) -> Option<usize> {
-        None
+        Some(self.0.len().saturating_sub(self.1))
     }
-    fn force(&self) -> NRes<Vec<Obj>> {
-        Err(NErr::value_error(
-            "Cannot force repeat because it's infinite".to_string(),
-        ))
-    }
-    // fn pythonic_index_isize...
-    // fn pythonic_slice...
-    // fn reversed...
+    // fn force / pythonic_index_isize / pythonic_slice / reversed: the defaults (clone and
+    // iterate) are right for a finite wrapper
 }
 
 impl Obj {
